@@ -65,13 +65,15 @@ def build_unit(name, sentinel=False, disabled_hints=(), extra_consts=()):
     mod.build(u)
     # constants that changed code refers to and the unit description does not list: sliced from the unit's own source files
     for cname in extra_consts:
+        kind = 'const' if cname.upper() == cname else 'fn'
         for rel, src in list(u.sources.items()):
             try:
-                src.find('const ' + cname)
+                src.find('%s %s' % (kind, cname))
             except LostAnchor:
                 continue
-            u.emit(rel, 'const ' + cname)
-            u.relaxed.append('constant %s (not in the unit description) sliced from %s because the code now refers to it' % (cname, rel))
+            u.emit(rel, '%s %s' % (kind, cname))
+            u.relaxed.append('%s %s (not in the unit description) sliced from %s because the code now refers to it%s' % (
+                kind, cname, rel, '' if kind == 'const' else ' - it has no contract, callers see only its signature'))
             break
     return u
 
@@ -177,7 +179,7 @@ def verify_unit(name, tier='quick', seed=0, threads=8, disabled_hints=(), depth=
             return verify_unit(name, tier, seed, threads, tuple(set(disabled_hints) | bad), depth + 1, extra_consts)
         missing = set()
         for t in tool:
-            m = re.match(r'cannot find value `([A-Z][A-Z0-9_]*)` in this scope', t['message'])
+            m = re.match(r'cannot find (?:value|function) `([A-Za-z_][A-Za-z0-9_]*)` in this scope', t['message'])
             if m:
                 missing.add(m.group(1))
         if missing and not (missing <= set(extra_consts)):
